@@ -372,6 +372,13 @@ var c10TLS = sync.OnceValue(func() *tls.Config {
 	return &tls.Config{Certificates: []tls.Certificate{{Certificate: [][]byte{der}, PrivateKey: key}}}
 })
 
+// tlsConf: every other endpoint is an older installation that speaks TLS 1.2 at most
+func (s *c10server) tlsConf() *tls.Config {
+	c := c10TLS().Clone()
+	c.MaxVersion = s.tlsMax
+	return c
+}
+
 type c10req struct {
 	Conn     int    `json:"conn"`
 	Method   string `json:"method,omitempty"`
@@ -385,6 +392,7 @@ type c10req struct {
 
 type c10server struct {
 	https        bool
+	tlsMax       uint16 // 0: whatever crypto/tls offers; else the newest protocol version this endpoint speaks
 	ip           net.IP
 	port         int
 	ln           *net.TCPListener
@@ -499,7 +507,7 @@ func (s *c10server) handle(idx int, tc *net.TCPConn) {
 				s.update(li, func(e *c10req) { e.Complete = err == nil })
 			default:
 				// TLS spoken to a plain HTTP client: the handshake fails on the request bytes and an alert goes out
-				t := tls.Server(tc, c10TLS())
+				t := tls.Server(tc, s.tlsConf())
 				err := t.Handshake()
 				s.update(li, func(e *c10req) { e.Err = fmt.Sprint(err) })
 			}
@@ -508,7 +516,7 @@ func (s *c10server) handle(idx int, tc *net.TCPConn) {
 		}
 	}
 	if s.https {
-		t := tls.Server(tc, c10TLS())
+		t := tls.Server(tc, s.tlsConf())
 		if err := t.Handshake(); err != nil {
 			s.entry(c10req{Conn: idx, Class: "none", Err: "tls handshake: " + err.Error()})
 			s.waitClient(tc, tc)
@@ -772,6 +780,9 @@ func c10run(k *c10case, sp *c10spec, generous bool) (o c10obs) {
 	}
 	s := &c10server{https: k.Scheme == "https", ip: c10addr(sp.addrBase, k.Idx), classify: sp.classify, primaryReady: sp.ready,
 		resp: map[string]c10resp{"primary": k.Prim}, done: make(chan struct{})}
+	if k.Idx%2 == 1 {
+		s.tlsMax = tls.VersionTLS12
+	}
 	for cl, sym := range k.Sec {
 		s.resp[cl] = sp.secondary(cl, sym)
 	}
